@@ -187,10 +187,19 @@ def _repo_frame(tb):
 
 def run_case(mod, spec):
     """Run check(spec); exceptions escaping from repository code become failures."""
+    from harness import numdiff
+
+    del numdiff.IMPURE[:]
     try:
         with warnings.catch_warnings():
             warnings.simplefilter("ignore")
             res = mod.check(spec)
+        seen = set()
+        for site, mag, detail in numdiff.IMPURE:
+            if site not in seen:
+                seen.add(site)
+                res.ok()
+                res.fail("repeated_evaluation_same_arguments", site, mag, {}, detail)
     except HarnessError:
         raise
     except Exception as e:
